@@ -58,7 +58,7 @@ func init() {
 		ID:    "C18",
 		Level: "fault_enumeration",
 		Rule: "naming half: directory trees over base names {a, b, ab, a.b} x sub-directories {., sub, sub/deep, d.tw, layouts} x 4 extensions, with decoys whose names only contain the extension (a.tw.bak, x.twig, n.tw~, a directory named like a template), loaded through 8 directory spellings (trailing slashes, ./, parent segments, nested root); the registered name set (verif hook VerifNames) must equal 'files ending in the extension, relative path minus extension', every name must render its own unique content, layouts must not be renderable and unknown names must be reported. " +
-			"fault half: for every file of valid trees (page, layout it uses, component it uses, nested page) x {deleted, truncated at every byte offset, replaced by each of 10 garbage strings, dangling symlink, symlink loop, directory in its place}: the tree is first loaded valid, then the fault is applied in place and the tree reloaded in the same process: loading must return (nil, error) naming the faulty file (or the layout/component name when it is absent) and never panic or hang; EvaluateFile(path) is compared with EvaluateString(content) before and after rewriting the file. also a component only the layout refers to, 10 spellings per registered name as unknown names, a layout that names a layout, EvaluateFile over path spellings the OS resolves differently from their cleaned form and over same-size same-mtime rewrites; round 8: 25 complete wrong statements as file contents; round 9: pages sorting before the files they use; scale: 1200 files, depth 40, names of 200 characters; rounds 10-11: same-size replacements, other-case extensions, symbolic links, files over 1 MiB; round 13: extensions without a leading dot; round 14: duplicate inserts in every pairing of forms, line ends inside argument lists; distinct_nontrivial = distinct (tree, spelling) loads and distinct (file, fault) pairs",
+			"fault half: for every file of valid trees (page, layout it uses, component it uses, nested page) x {deleted, truncated at every byte offset, replaced by each of 10 garbage strings, dangling symlink, symlink loop, directory in its place}: the tree is first loaded valid, then the fault is applied in place and the tree reloaded in the same process: loading must return (nil, error) naming the faulty file (or the layout/component name when it is absent) and never panic or hang; EvaluateFile(path) is compared with EvaluateString(content) before and after rewriting the file. also a component only the layout refers to, 10 spellings per registered name as unknown names, a layout that names a layout, EvaluateFile over path spellings the OS resolves differently from their cleaned form and over same-size same-mtime rewrites; round 8: 25 complete wrong statements as file contents; round 9: pages sorting before the files they use; scale: 1200 files, depth 40, names of 200 characters; rounds 10-11: same-size replacements, other-case extensions, symbolic links, files over 1 MiB; round 13: extensions without a leading dot; round 14: duplicate inserts in every pairing of forms, line ends inside argument lists; round 15: filling layouts, names ending in the extension, backslash spellings; distinct_nontrivial = distinct (tree, spelling) loads and distinct (file, fault) pairs",
 		Assumptions: []string{
 			"for a truncation an error is required only when the cut lies inside a block, string, object literal, comment or directive argument list (spans known from the generator); other prefixes may load",
 			"a deleted or replaced-by-directory page is simply not registered (nothing uses it); unreadable files are produced with symlinks (the sandbox runs as root, so permission bits do not bite)",
